@@ -25,18 +25,19 @@ type Harness struct {
 // Explorer enumerates all executions of a harness that differ from the canonical schedule in at most Bound
 // decisions (deviation-bounded DFS, explored in order of increasing deviation count).
 type Explorer struct {
-	T        *testing.T
-	H        Harness
-	Bound    int  // maximum number of deviations; <0: unbounded
-	Delay    bool // delay-bounded cost model
-	Rotate   bool // round-robin canonical schedule
-	Reverse  bool // descending-id canonical schedule
-	MaxSteps int
-	Horizon  time.Duration
-	Deadline time.Time
-	MaxExec  int64
-	Shard    int // this process explores first-level alternatives with index%Shards == Shard
-	Shards   int
+	T          *testing.T
+	H          Harness
+	Bound      int  // maximum number of deviations; <0: unbounded
+	Delay      bool // delay-bounded cost model
+	Rotate     bool // round-robin canonical schedule
+	Reverse    bool // descending-id canonical schedule
+	MaxSteps   int
+	Horizon    time.Duration
+	Deadline   time.Time
+	MaxExec    int64
+	MaxPending int // cap on the executions queued at higher deviation levels (default 5 000 000)
+	Shard      int // this process explores first-level alternatives with index%Shards == Shard
+	Shards     int
 	// OnExec is called for every execution (outcome string of Check).
 	OnExec func(outcome string, tr *Trace)
 	// StopAfterViolations stops the exploration after that many violating executions (default 1).
@@ -133,6 +134,13 @@ func (e *Explorer) Run() Stats {
 		shards = 1
 	}
 	levels := map[int][]item{0: {{n: -1}}}
+	// executions waiting at higher deviation levels are kept in memory; the exploration stops (capped, not failed) when
+	// their number would exhaust the worker's memory
+	maxPending := e.MaxPending
+	if maxPending <= 0 {
+		maxPending = 5_000_000
+	}
+	pending := 0
 	maxLevel := 0
 	firstLevelIdx := 0
 	for lvl := 0; ; lvl++ {
@@ -141,6 +149,10 @@ func (e *Explorer) Run() Stats {
 		}
 		q := levels[lvl]
 		delete(levels, lvl)
+		pending -= len(q)
+		if pending < 0 {
+			pending = 0
+		}
 		if len(q) == 0 {
 			if lvl >= maxLevel {
 				st.Exhausted = true
@@ -156,6 +168,10 @@ func (e *Explorer) Run() Stats {
 		for len(q) > 0 {
 			if !e.Deadline.IsZero() && time.Now().After(e.Deadline) {
 				st.Capped = fmt.Sprintf("deadline reached while exploring executions with %d deviation(s)", lvl)
+				return st
+			}
+			if pending > maxPending {
+				st.Capped = fmt.Sprintf("%d executions with more deviations are waiting (memory cap) while exploring executions with %d deviation(s)", pending, lvl)
 				return st
 			}
 			if e.MaxExec > 0 && st.Executions >= e.MaxExec {
@@ -242,6 +258,7 @@ func (e *Explorer) Run() Stats {
 							q = append(q, child)
 						} else {
 							levels[nd] = append(levels[nd], child)
+							pending++
 							if nd > maxLevel {
 								maxLevel = nd
 							}
